@@ -7,7 +7,7 @@ mkdir -p out/logs
 wt=/dev/shm/evalwt-$tag
 rm -rf $wt; git -C /repo worktree prune; git -C /repo worktree add -q --detach $wt HEAD || exit 2
 trap 'git -C /repo worktree remove --force '$wt EXIT
-git -C $wt apply "$patch" || { echo "patch does not apply"; exit 2; }
+git -C $wt apply --3way "$patch" >/dev/null 2>&1 || { echo "patch does not apply"; exit 2; }
 for p in "$@"; do
   VERIF_REPO=$wt VERIF_BUDGET_S=${SEED_QUICK_S:-45} ./vcheck $p --tier quick > out/logs/wt.$tag.$p.quick.log 2>&1; rc=$?
   echo "$tag $p quick rc=$rc: $(grep -m1 '^violation' out/logs/wt.$tag.$p.quick.log | cut -c1-300)"
